@@ -546,3 +546,12 @@ fn test_find_comma_op() {
     ];
     assert_eq!(Some(1), find_op_of_comma(&pts));
 }
+
+/// Wrappers of private kernels for out-of-tree verification harnesses, see feature `verif_hooks`.
+#[cfg(feature = "verif_hooks")]
+#[doc(hidden)]
+pub mod verif_hooks {
+    pub fn next_char_boundary(text: &str, start_idx: usize) -> usize {
+        super::next_char_boundary(text, start_idx)
+    }
+}
